@@ -4,7 +4,9 @@
 (* ChannelMap operation by the driver):                                              *)
 (*   alloc  who id ctr      _next_channel returned id to thread who; ctr = counter before *)
 (*   put    who id          ChannelMap.put(id, channel) by thread who                 *)
-(*   del    id              ChannelMap.delete(id)                                     *)
+(*   del    id cause pending  ChannelMap.delete(id) while handling CLOSE ("close") or   *)
+(*                          CHANNEL_OPEN_FAILURE ("failure"; pending = a local open of  *)
+(*                          that id was waiting for its answer)                          *)
 (*   drop   who             thread who gave up the id it had allocated (open rejected) *)
 (* live0 / final: ids registered before the first and after the last event.          *)
 (* The design spec's variables are updated with its own operators and its invariants  *)
@@ -26,7 +28,7 @@ TNext ==
   /\ LET e == T.events[l] IN
      CASE e.op = "alloc" ->
             /\ AllocBy(e.who, e.id) /\ UNCHANGED <<open, map>>
-            /\ bad' = Fails(e.id \notin map /\ PendingFresh', "P_id_in_use")
+            /\ bad' = Fails(e.id \notin map /\ e.id \notin DOMAIN open /\ PendingFresh', "P_id_in_use")
                       \cup Fails(InRange', "P_id_range")
                       \cup Fails(e.ctr = counter, "C_counter_drift")
                       \cup Fails(~(e.ctr \in Ids) \/ e.id = NextFree(e.ctr, map), "C_not_next_free")
@@ -36,9 +38,13 @@ TNext ==
                       \cup Fails(InRange', "P_id_range")
                       \cup Fails(MapAgrees', "C_map")
        [] e.op = "del" ->
-            /\ (IF e.id \in DOMAIN open THEN Unregister(e.id) ELSE UNCHANGED <<open, map>>)
+            \* cause "close": CLOSE handled for that channel (it is closed); "failure": CHANNEL_OPEN_FAILURE,
+            \* which closes a channel only if its local open was still waiting for the answer (e.pending)
+            /\ (IF e.id \notin DOMAIN open THEN UNCHANGED <<open, map>>
+                ELSE IF e.cause = "failure" /\ ~e.pending THEN map' = map \ {e.id} /\ open' = open
+                ELSE Unregister(e.id))
             /\ UNCHANGED <<counter, pend>>
-            /\ bad' = {}
+            /\ bad' = Fails(MapAgrees', "C_live_channel_unregistered")
        [] e.op = "drop" ->
             /\ pend' = IF e.who \in DOMAIN pend THEN Without(pend, e.who) ELSE pend
             /\ UNCHANGED <<counter, open, map>>
